@@ -27,7 +27,7 @@ def run_model(decl_dir, prepass=True, total=True, dump=True, workers=None, allki
     d = core.scratch_dir("mpv-val-")
     cfg = os.path.join(d, "v.cfg")
     with open(cfg, "w") as f:
-        f.write("CONSTANTS PrepassAll = %s CleanersTotal = %s AllKinds = %s\nINIT Init\nNEXT Next\nCHECK_DEADLOCK FALSE\n" % (
+        f.write("CONSTANTS PrepassAll = %s CleanersTotal = %s AllKinds = %s Pairs = TRUE\nINIT Init\nNEXT Next\nCHECK_DEADLOCK FALSE\n" % (
             "TRUE" if prepass else "FALSE", "TRUE" if total else "FALSE", "TRUE" if allkinds else "FALSE"))
         for inv in ("AcceptIffWellFormed", "ErrorIsAFault", "RejectBeforeEffects", "EscapeTyped") + (() if allkinds else ("BuilderSound",)):
             f.write("INVARIANT %s\n" % inv)
@@ -226,7 +226,7 @@ def validate_traces(chk, records, decl_dir):
     d = core.scratch_dir("mpv-vtr-")
     cfg = os.path.join(d, "t.cfg")
     with open(cfg, "w") as f:
-        f.write("CONSTANTS AllKinds = FALSE\nINIT Init\nNEXT Next\nCHECK_DEADLOCK FALSE\nINVARIANT Report\n")
+        f.write("CONSTANTS AllKinds = FALSE Pairs = FALSE\nINIT Init\nNEXT Next\nCHECK_DEADLOCK FALSE\nINVARIANT Report\n")
     files = []
     for s in range(shards):
         part = records[s::shards]
